@@ -1,12 +1,14 @@
 (* Conc/OracleSpec.v — statements about the commit oracle (Conc/Oracle.v) and the sequential
-   commit machine (Conc/CommitSeq.v).  Proofs: Conc/Oracle_proofs.v.
+   commit machine (Conc/CommitSeq.v: the code with the repair of C04-N1, the restore epoch;
+   Conc/CommitSeqOld.v: the machine before it, regression records only).  Proofs:
+   Conc/Oracle_proofs.v.
 
    Vocabulary.  `c_done s` lists the successful commits (stamp, keys) of the history that led to
    s.  A transaction T with start s "overlaps" a commit with stamp m iff s < m (T began before
    that commit became visible).  First-committer-wins = a commit of T is accepted only if no
    commit overlapping T wrote one of T's keys. *)
 From Coq Require Import List NArith Arith Bool.
-From SKV Require Import Params Base.Lex Conc.Oracle Conc.CommitSeq.
+From SKV Require Import Params Base.Lex Conc.Oracle Conc.CommitSeq Conc.CommitSeqOld.
 Import ListNotations.
 Local Open Scope N_scope.
 
@@ -14,6 +16,12 @@ Definition no_fail (l : list cstep) : Prop := forall c, In c l -> is_fail c = fa
 Definition no_restore (l : list cstep) : Prop := forall c, In c l -> is_restore c = false.
 Definition inj_on (fp : bytes -> N) (ks : list bytes) : Prop :=
   forall a b, In a ks -> In b ks -> fp a = fp b -> a = b.
+(* every transaction of the history was created by Transaction::new (the public API): the
+   epoch-less entry CommitPipeline::commit, kept for the crate's own tests, is not used *)
+Definition api_only (l : list cstep) : Prop := forall id, ~ In (SBegin id BUnreg) l.
+(* the transaction began in the current restore epoch (or carries none) *)
+Definition epoch_current (s : cstate) (t : tx) : Prop :=
+  match t_epoch t with Some e => e = c_epoch s | None => True end.
 
 (* the generated comparison operators are the ones the proofs are about *)
 Definition oracle_params_ok : Prop :=
@@ -24,7 +32,8 @@ Definition oracle_params_ok : Prop :=
   (forall a b, ORACLE_RETAIN_CMP a b = N.leb b a) /\
   (forall a b, ORACLE_ROLLBACK_CMP a b = N.eqb a b) /\
   (forall a b, ORACLE_PUBLISH_SAME_CMP a b = N.eqb a b) /\
-  COMMIT_FIRST_SEQ = 1.
+  COMMIT_FIRST_SEQ = 1 /\
+  (forall a b, ORACLE_EPOCH_CMP a b = negb (N.eqb a b)).
 
 Section Stmts.
 Variable fp : bytes -> N.
@@ -81,16 +90,17 @@ Definition no_lost_update_stmt : Prop :=
     step_outcome fp G s (SCommit id keys fail) = OOk ->
     In (m, ks) (c_done s) -> t_start t < m -> In k keys -> ~ In k ks.
 
-(* no false conflict: an open transaction that is not behind the pruning mark and none of whose
-   keys was written by an overlapping commit is accepted — when fp does not collide on the keys of
-   the history.  Holds with failures and restores in the history. *)
+(* no false conflict: an open transaction of the current restore epoch (one that began before the
+   last restore is answered Retry: stale_epoch_refused_stmt below) that is not behind the pruning
+   mark and none of whose keys was written by an overlapping commit is accepted — when fp does not
+   collide on the keys of the history.  Holds with failures and restores in the history. *)
 Definition accepted (keys : list bytes) (fail : bool) : outcome :=
   match keys with [] => OOk | _ => if fail then OFailed else OOk end.
 Definition no_false_conflict_stmt : Prop :=
   forall steps id keys fail t,
     let s := run fp G steps c0 in
     inj_on fp (steps_keys steps ++ keys) ->
-    tx_get id (c_txs s) = Some t -> t_closed t = false ->
+    tx_get id (c_txs s) = Some t -> t_closed t = false -> epoch_current s t ->
     kept_since (c_orc s) <= t_start t ->
     (forall m ks k, In (m, ks) (c_done s) -> t_start t < m -> In k keys -> ~ In k ks) ->
     step_outcome fp G s (SCommit id keys fail) = accepted keys fail.
@@ -137,17 +147,111 @@ Definition refused_has_no_effect_stmt : Prop :=
   forall s c o, step_outcome fp G s c = o ->
     o = OConflict \/ o = ORetry \/ o = ONoTx \/ o = OClosed \/ o = OBad ->
     step_state fp G s c = s.
+
+(* ---------- the repair of C04-N1: the restore epoch ---------- *)
+
+(* (iii) a transaction whose begin epoch is not the current restore epoch (ANY state) is answered
+   Retry, with no oracle call and no state change *)
+Definition stale_epoch_refused_stmt : Prop :=
+  forall s id keys fail t e,
+    tx_get id (c_txs s) = Some t -> t_closed t = false -> keys <> [] ->
+    t_epoch t = Some e -> e <> c_epoch s ->
+    cs_step fp G s (SCommit id keys fail) = (s, ORetry, []).
+
+(* ... in terms of histories: T begins (through the API) after `pre`; a restore happens some time
+   later; from then on, whatever else happens (further commits of the new timeline catching up
+   with T's old start, further restores), every commit attempt of T changes nothing, makes no
+   oracle call and is answered Retry (or Closed, if T had ended before) *)
+Definition open_across_restore_refused_stmt : Prop :=
+  forall pre id md mid max post keys fail,
+    let s1 := run fp G pre c0 in
+    let s := run fp G (pre ++ SBegin id md :: mid ++ SRestore max :: post) c0 in
+    tx_get id (c_txs s1) = None -> md <> BUnreg -> keys <> [] ->
+    cs_step fp G s (SCommit id keys fail) = (s, ORetry, []) \/
+    cs_step fp G s (SCommit id keys fail) = (s, OClosed, []).
+
+(* the oracle is consulted (check / publish / rollback) only for transactions of the current epoch *)
+Definition oracle_consulted_only_in_epoch_stmt : Prop :=
+  forall s id keys fail t,
+    tx_get id (c_txs s) = Some t ->
+    snd (cs_step fp G s (SCommit id keys fail)) <> [] -> epoch_current s t.
+
+(* the pruning mark never passes `visible`, ALL histories through the API (restores, failures,
+   transactions left open across restores included).  The state of the old pathology (b) —
+   kept_since > visible, in which every transaction that begins is refused — is unreachable. *)
+Definition kept_le_visible_stmt : Prop :=
+  forall steps, api_only steps ->
+    let s := run fp G steps c0 in kept_since (c_orc s) <= c_visible s.
+
+(* (ii) whatever happened before (restores, transactions left open across them, failures): a
+   transaction that begins, registered, after the last restore is never answered Retry *)
+Definition registered_after_restore_never_retry_stmt : Prop :=
+  forall pre post id keys fail t,
+    api_only (pre ++ post) -> no_restore post ->
+    let s1 := run fp G pre c0 in
+    let s := run fp G post s1 in
+    tx_get id (c_txs s1) = None ->
+    tx_get id (c_txs s) = Some t -> t_reg t = true ->
+    step_outcome fp G s (SCommit id keys fail) <> ORetry.
+
+(* ... and the second sentence of the property for it: it is accepted unless a commit made after
+   it began wrote one of its keys *)
+Definition commit_accepted_after_restore_stmt : Prop :=
+  forall pre post id keys fail t,
+    api_only (pre ++ post) -> no_restore post ->
+    let s1 := run fp G pre c0 in
+    let s := run fp G post s1 in
+    inj_on fp (steps_keys (pre ++ post) ++ keys) ->
+    tx_get id (c_txs s1) = None ->
+    tx_get id (c_txs s) = Some t -> t_reg t = true ->
+    (forall m ks k, In (m, ks) (c_done s) -> t_start t < m -> In k keys -> ~ In k ks) ->
+    step_outcome fp G s (SCommit id keys fail) = accepted keys fail.
+
+(* (i) first committer wins in terms of TIME, for ALL histories — failures and restores anywhere,
+   no proviso: T begins (through the API) after `pre`; if T's commit is accepted after `post`, no
+   commit that was made after T began and still exists wrote one of T's keys.  (An accepted commit
+   implies that `post` contains no restore, so `not in c_done s1` does mean "made after T began".) *)
+Definition no_lost_update_since_begin_stmt : Prop :=
+  forall pre id md post keys fail m ks k,
+    let s1 := run fp G pre c0 in
+    let s := run fp G (pre ++ SBegin id md :: post) c0 in
+    tx_get id (c_txs s1) = None -> md <> BUnreg ->
+    step_outcome fp G s (SCommit id keys fail) = OOk ->
+    In (m, ks) (c_done s) -> ~ In (m, ks) (c_done s1) -> In k keys -> ~ In k ks.
 End Stmts.
 
-(* ---------- refutation on the model of the pinned code ---------- *)
-(* after a restore that rewinds the counter below the start of a still-open transaction, a
+(* the epoch-less entry is not protected: an unregistered caller left over from before a restore
+   can still drag the pruning mark above `visible` (why kept_le_visible_stmt and (ii) are stated
+   for api_only histories) *)
+Definition epochless_commit_unprotected (fp : bytes -> N) (G : N) : Prop :=
+  exists steps, let s := run fp G steps c0 in c_visible s < kept_since (c_orc s).
+
+(* ---------- regression records: the machine before the repair (Conc/CommitSeqOld.v) ---------- *)
+(* (b) after a restore that rewinds the counter below the start of a still-open transaction, a
    transaction that begins (registered) after the restore is answered Retry although nothing
    was pruned for it; the state in which that happens has kept_since > visible, so EVERY later
-   transaction is answered Retry as well *)
-Definition fresh_retry_after_restore (fp : bytes -> N) (G : N) : Prop :=
+   transaction is answered Retry as well.  The SAME history on the repaired machine: the stale
+   commit is refused, the pruning mark stays below `visible`, the fresh transaction is accepted. *)
+Definition fresh_retry_after_restore_old (fp : bytes -> N) (G : N) : Prop :=
   exists steps id keys t,
-    let s := run fp G steps c0 in
+    let s := run_old fp G steps c0 in
     tx_get id (c_txs s) = Some t /\ t_reg t = true /\ t_closed t = false /\
     t_start t = c_visible s /\
-    step_outcome fp G s (SCommit id keys false) = ORetry /\
-    c_visible s < kept_since (c_orc s).
+    step_outcome_old fp G s (SCommit id keys false) = ORetry /\
+    c_visible s < kept_since (c_orc s) /\
+    (let s' := run fp G steps c0 in
+     step_outcome fp G s' (SCommit id keys false) = OOk /\ kept_since (c_orc s') <= c_visible s').
+
+(* (a) a transaction T (id) open across a restore accepted by the old machine over a commit that
+   was made after T began and still exists; the same history on the repaired machine: Retry.
+   Two witnesses: T commits right after the restore (its start is above the new stamps), and T
+   commits after the new timeline has caught up with its old start (a test `start > visible`
+   would not catch that one; the epoch does). *)
+Definition lost_update_across_restore_old (fp : bytes -> N) (G : N) (pre post : list cstep) (id : N) : Prop :=
+  exists keys m ks k,
+    let steps := pre ++ SBegin id BRW :: post in
+    let s := run_old fp G steps c0 in
+    tx_get id (c_txs (run_old fp G pre c0)) = None /\
+    step_outcome_old fp G s (SCommit id keys false) = OOk /\
+    In (m, ks) (c_done s) /\ ~ In (m, ks) (c_done (run_old fp G pre c0)) /\ In k keys /\ In k ks /\
+    step_outcome fp G (run fp G steps c0) (SCommit id keys false) = ORetry.
